@@ -33,6 +33,17 @@ Theorem C17_supply : forall (K : list tx),
 Proof. exact supply_theorem. Qed.
 Print Assumptions C17_supply.
 
+(* Two of the three clauses need no validity hypothesis at all: in every state
+   reachable by ANY history of store calls, the recorded total is genesis +
+   finalized deposits + finalized mints - finalized withdrawal submissions (each
+   finalized transaction counted exactly once, whatever snapshots presented it
+   again), and it lies within 0 .. capacity. *)
+Theorem C17_flow_and_bounds_every_history : forall ops a,
+  let s := run empty_state ops in
+  total_of s a = supply_flow s a /\ 0 <= total_of s a <= capacity a.
+Proof. exact flow_theorem. Qed.
+Print Assumptions C17_flow_and_bounds_every_history.
+
 (* One finalization step: a validated, not yet finalized transaction moves the
    total and the unconsumed sum of its asset by the same amount (its
    supply_delta), so the ledger invariant is kept. *)
@@ -88,19 +99,13 @@ Ltac norm_state :=
   | |- vgen _ ?s _ => let s' := eval vm_compute in s in change s with s'
   end.
 
-Ltac valid_shape n :=
-  match n with
-  | O => left
-  | S ?m => right; valid_shape m
-  end.
-
-Ltac solve_valid n :=
+Ltac solve_valid pick :=
   constructor;
   [ cbn; discriminate
   | cbn; repeat constructor; cbn; intuition discriminate
   | cbn; intros k Hk; repeat (destruct Hk as [<-|Hk]; [eexists; split; [vm_compute; reflexivity|split; reflexivity]|]); destruct Hk
   | vm_compute; reflexivity
-  | valid_shape n; vm_compute; repeat split; try reflexivity; eauto; try (intros X; contradiction X; reflexivity) ].
+  | pick; vm_compute; repeat eexists; repeat split; try reflexivity; try (intros; reflexivity); try (intros X; exfalso; apply X; reflexivity) ].
 
 Example C17_ex_validated : validated_history exK empty_state ex_ops.
 Proof.
@@ -110,14 +115,14 @@ Proof.
   { cbn [vop]. intros s1 H1. vm_compute in H1. injection H1 as <-. cbn [vgen]. split; [cbn; auto|].
     split.
     - norm_state. cbn [vmembers sn_txs sn_]. split; [|auto].
-      intros t Hb _. vm_compute in Hb. injection Hb as <-. solve_valid 3%nat.
+      intros t Hb _. vm_compute in Hb. injection Hb as <-. solve_valid ltac:(right; right; right).
     - intros s2 _. exact I. }
   norm_state. constructor; [exact I|]. norm_state. constructor; [exact I|]. norm_state.
   constructor; [cbn; auto|]. norm_state.
   (* snapshot of the deposit *)
   constructor.
   { cbn [vop vmembers sn_txs sn_]. split; [|auto].
-    intros t Hb _. vm_compute in Hb. injection Hb as <-. solve_valid 1%nat. }
+    intros t Hb _. vm_compute in Hb. injection Hb as <-. solve_valid ltac:(right; left). }
   norm_state. constructor; [exact I|]. norm_state.
   constructor; [exists x1; cbn; repeat split; auto; discriminate|]. norm_state.
   constructor; [cbn; auto|]. norm_state.
@@ -126,9 +131,9 @@ Proof.
   (* the batch: transfer, withdrawal submission, and the deposit presented again *)
   constructor.
   { cbn [vop vmembers sn_txs sn_]. split.
-    - intros t Hb _. vm_compute in Hb. injection Hb as <-. solve_valid 0%nat.
+    - intros t Hb _. vm_compute in Hb. injection Hb as <-. solve_valid ltac:(left).
     - intros s1 H1. vm_compute in H1. injection H1 as <-. split.
-      + intros t Hb _. vm_compute in Hb. injection Hb as <-. solve_valid 0%nat.
+      + intros t Hb _. vm_compute in Hb. injection Hb as <-. solve_valid ltac:(left).
       + intros s2 H2. vm_compute in H2. injection H2 as <-. split; [|auto].
         intros t Hb Hf. vm_compute in Hf. discriminate Hf. }
   constructor.
